@@ -175,6 +175,9 @@ type world struct {
 	targets  map[string]*target // by canonical address (all peers; addresses are disjoint)
 	dns      map[string]dnsEntry
 	dnsSeen  map[string]bool
+	punch    bool           // hole-punch sub-stratum of the QUIC stratum (see sim_test.go)
+	reuseOff bool           // quicreuse.DisableReuseport() on the dialing node
+	rcmgr    network.ResourceManager // the dialing node's REAL resource manager (QUIC stratum), nil = NullResourceManager
 	quic     bool           // QUIC stratum: /quic-v1 addresses go to the REAL QUIC transport over simnet's UDP wire
 	udpLost  map[string]int // sLossyStart: datagrams dropped so far in the current dial, by destination
 	recs     []*dialRec
@@ -628,6 +631,7 @@ type dialer struct {
 	swarm *swarm.Swarm
 	ps    peerstore.Peerstore
 	cm    *quicreuse.ConnManager
+	qt    transport.Transport // the real QUIC transport (QUIC stratum), un-recorded
 }
 
 func (d *dialer) close() {
@@ -653,7 +657,10 @@ func newDialer(n *simnet.Net, w *world, key crypto.PrivKey, ip, secu string, opt
 	}
 	ps.AddPubKey(id, key.GetPublic())
 	ps.AddPrivKey(id, key)
-	rm := &network.NullResourceManager{}
+	var rm network.ResourceManager = &network.NullResourceManager{}
+	if w.rcmgr != nil {
+		rm = w.rcmgr
+	}
 	sw, err := swarm.NewSwarm(id, ps, eventbus.NewBus(), append([]swarm.Option{swarm.WithResourceManager(rm)}, opts...)...)
 	if err != nil {
 		ps.Close()
@@ -681,6 +688,7 @@ func newDialer(n *simnet.Net, w *world, key crypto.PrivKey, ip, secu string, opt
 		return fail(err)
 	}
 	var cm *quicreuse.ConnManager
+	var inner transport.Transport
 	stubs := []*stub{{w: w, kind: tQUIC, protos: []int{ma.P_QUIC_V1}}}
 	if w.quic {
 		// exactly what simhost does for Opts.QUIC, plus the recorder
@@ -690,13 +698,17 @@ func newDialer(n *simnet.Net, w *world, key crypto.PrivKey, ip, secu string, opt
 		copy(srk[:], []byte("verifsim-srk-"+id.String()))
 		copy(tk[:], []byte("verifsim-tok-"+id.String()))
 		src := net.ParseIP(ip)
-		cm, err = quicreuse.NewConnManager(srk, tk,
-			quicreuse.OverrideListenUDP(n.UDPListenFunc(ip)),
-			quicreuse.OverrideSourceIPSelector(func() (quicreuse.SourceIPSelector, error) { return fixedSource{src}, nil }))
+		qopts := []quicreuse.Option{quicreuse.OverrideListenUDP(n.UDPListenFunc(ip)),
+			quicreuse.OverrideSourceIPSelector(func() (quicreuse.SourceIPSelector, error) { return fixedSource{src}, nil })}
+		if w.reuseOff {
+			qopts = append(qopts, quicreuse.DisableReuseport())
+		}
+		cm, err = quicreuse.NewConnManager(srk, tk, qopts...)
 		if err != nil {
 			return fail(err)
 		}
 		qt, err := libp2pquic.NewTransport(key, cm, nil, nil, rm)
+		inner = qt
 		if err == nil {
 			err = sw.AddTransport(&recQUIC{Transport: qt, w: w})
 		}
@@ -717,7 +729,7 @@ func newDialer(n *simnet.Net, w *world, key crypto.PrivKey, ip, secu string, opt
 			return fail(err)
 		}
 	}
-	return &dialer{id: id, swarm: sw, ps: ps, cm: cm}, nil
+	return &dialer{id: id, swarm: sw, ps: ps, cm: cm, qt: inner}, nil
 }
 
 // netKey is simnet's name of a TCP endpoint.
@@ -731,12 +743,6 @@ func goroutines() map[string]int {
 	out := map[string]int{}
 	for _, g := range simrt.BubbleGoroutines() {
 		if strings.Contains(g, "verifsim/simnet.") || strings.Contains(g, "harness/c05.run") {
-			continue
-		}
-		// socket loops of a quic-go Transport belong to the connection manager's transport pool, not to a dial
-		// (quicreuse keeps the transport a SUCCESSFUL dial went out from referenced even after the connection
-		// was closed, so it is never collected before ConnManager.Close — outside C05, reported separately)
-		if strings.Contains(g, "quic-go.(*Transport)") {
 			continue
 		}
 		// normalise: the frame list may end in an empty entry or a "created by" line depending on how deep the stack is
